@@ -17,7 +17,7 @@ BUDGET = {'quick': 20, 'thorough': 240}
 STREAM_ORDER = ['ops', 'guards', 'mat', 'chart', 'cfg']
 RULE = (common.GEN + 'all entry/exit/action code is probed and sends events; per returned macro step (i) the probe log is compared item by '
         'item with the log reconstructed from the micro steps, (ii) transition order and the exited/entered multisets of every transition '
-        'with the reference model, (iii) the stated order constraints (descendants exited first, parents entered first, orthogonal '
+        'with the reference model (MacroStep.sent_events is the concatenation of its micro steps lists, object by object; a third of the charts also send parameterless, hence equal, events), (iii) the stated order constraints (descendants exited first, parents entered first, orthogonal '
         'siblings in name order); non-trivial = a macro step with >= 2 transitions or >= 3 exited+entered states; distinct = distinct '
         '(chart, pre-configuration, fired transitions)')
 COMPONENTS = {'real': common.REAL, 'stub': common.STUB}
@@ -47,6 +47,7 @@ def expected_log(sp, ms):
 def run(ch, tier):
     res = Result()
     cfg = swarm(ch.s('cfg'), Cfg(sends=True, notify=True, delays=True, pair_bias=2), tier)
+    cfg.anon = ch.s('cfg').flag(1, 3)        # events without any parameter: two of them sent in one step compare equal
     if ch.s('cfg').flag(1, 3):
         cfg.history = cfg.force_history = True
         cfg.max_states = max(cfg.max_states, 8)
@@ -110,10 +111,10 @@ def check_trace(sp, r, res):
             pos += 1
             for kind, name, delay in sends:
                 got = log[pos] if pos < len(log) else None
-                want_prefix = ('send', name, delay) if kind == 'send' else ('notify', name)
+                want_prefix = ('send', name, delay) if kind in ('send', 'sendw') else ('anon', name, delay) if kind == 'anon' else ('notify', name)
                 if got is None or (got[0],) + tuple(got[2:]) != want_prefix:
                     return ('trace-lies', 'expected the %s of %r after %r, executed code has %r' % (kind, name, item, got))
-                uids.append((kind, got[1], name, delay))
+                uids.append(('notify' if kind == 'notify' else 'send', got[1], name, delay))
                 pos += 1
         # sent events listed by the micro step = events sent by its code, in order
         listed = []
@@ -134,6 +135,12 @@ def check_trace(sp, r, res):
             conf.add(s)
     if pos != len(log):
         return ('untold', 'code ran that no micro step accounts for: %r' % (log[pos:pos + 4],))
+    # the macro step lists the sent events of its micro steps, all of them (two equal events are two events), in order
+    flat = [e for m in r.ms.steps for e in m.sent_events]
+    whole = list(r.ms.sent_events)
+    if len(whole) != len(flat) or any(a is not b for a, b in zip(whole, flat)):
+        return ('sent-events-lie', 'MacroStep.sent_events lists %d events %s, its micro steps list %d: %s' % (
+            len(whole), [e.name for e in whole], len(flat), [e.name for e in flat]))
     if conf != r.post:
         return ('trace-lies', 'applying the exited/entered lists to %s gives %s, the configuration is %s' % (
             sp.canon(r.pre), sp.canon(conf), sorted(r.post)))
